@@ -61,7 +61,7 @@ MANIFEST = {
     "the Hugr op-list extractor, assumed op semantics. Probes are sampling (all step-kind sequences up to the tier's depth).",
     "technique": "Lean 4 proof (lens laws + cascade induction) + per-run extraction of the real lowering (T-obj) with a store-semantics oracle",
     "design_ref": "DESIGN.md §5 C07",
-    "ready": False,
+    "ready": True,
 }
 
 BUMP = 1000
